@@ -439,7 +439,7 @@ def _explore(out, tier, seed, facts, replay):
                 f_.write("%d %d 1 %g %g %g %g %g %g\n" % (86400 * (n_ % 3), l_, o_, c_, t_, p_, u_, v_))
         col_ = {"obs": 1, "fcst": 2, "tmin": 3, "threshold:-5": 4, "Tmax": 5, "tmax": 6}
         for ofld, ffld in (("fcst", "tmin"), ("fcst", "obs"), ("tmin", "fcst"), (None, "tmin"), ("tmin", None), (None, "threshold:-5"),
-                           (None, "Tmax"), (None, "tmax"), ("Tmax", "tmax")):
+                           (None, "Tmax"), (None, "tmax"), ("Tmax", "tmax"), ("threshold:-5", None), ("threshold:-5", "tmin")):
             fo = os.path.join(tmp, "fld_out.csv")
             if os.path.exists(fo):
                 os.remove(fo)
